@@ -1,4 +1,5 @@
 import N0Verif.Proofs.NXmlStr
+import N0Verif.Proofs.NXmlDD
 /-!
 # C18 — n0xml keeps document order and its searches return only real nodes
 
@@ -287,6 +288,101 @@ theorem C18_findall_rendered (findFirst : Bool) (root : XVal) (e : List Tok) (hn
 /-- one step: the step parser returns the groups the step was rendered from -/
 theorem C18_parseStep_render (st : Step) (h : WfStep st) : parseStep (renderStepE st) = some st :=
   parseStep_render st h
+
+/-! ### the `**/**` collapse (`while True: normalized = xpath.replace("**/**", "**") …`)
+
+`normXp xp` is the text the loop of `findall` ends with (`xpSteps xp = splitPath (normXp xp)`);
+`ddNF` is a strategy-independent normal form (leftmost rewriting `**/**` → `**`); `ddRun k` is the
+text of `k + 1` consecutive `**` steps (`**`, `**/**`, `**/**/**`, …); `collapseDD` drops every plain
+`**` token that is directly followed by a token with tag `**` (`Proofs/NXmlDD.lean`). -/
+
+/-- **C18 (`**/**`: the normalisation).**  For every expression text: what the loop returns contains
+no `**/**` any more — so it is not the join of any step list in which a step ending in `**` (a plain
+`**` in particular) is directly followed by a step beginning with `**` —, normalising again changes
+nothing, `findall` reads the same steps from the normalised text, and the result does not depend on
+the replacement strategy of `str.replace` (it is the normal form `ddNF`). -/
+theorem C18_dd_collapse_idem (xp : Str) :
+    isInfix starsPat (normXp xp) = false ∧
+    (∀ (pre post : List Str) (x y : Str),
+      normXp xp ≠ join ['/'] (pre ++ (x ++ star2) :: (star2 ++ y) :: post)) ∧
+    normXp (normXp xp) = normXp xp ∧ xpSteps (normXp xp) = xpSteps xp ∧ normXp xp = ddNF xp :=
+  ⟨normXp_noDD xp, noDD_steps _ (normXp_noDD xp), normXp_idem xp, xpSteps_norm xp, normXp_eq xp⟩
+
+/-- the same on the grammar of the property: the token list `findall` ends with has no plain `**`
+directly before a `**…` token, collapsing is idempotent and only drops tokens -/
+theorem C18_dd_collapse_tokens (e : List Tok) :
+    NoDD (collapseDD e) ∧ collapseDD (collapseDD e) = collapseDD e ∧ ∀ t ∈ collapseDD e, t ∈ e :=
+  ⟨collapseDD_NoDD e, collapseDD_idem e, collapseDD_mem e⟩
+
+/-- **C18 (`**/**`: same result).**  An expression with a run of `k + 1` consecutive `**` steps —
+anywhere: `a` is what precedes the run (empty or ending in `/`, or anything else), `b` what follows
+(`/x…`, or the index / condition of the last `**`) — gives exactly the result of the expression with
+the run collapsed to one `**`: the same `(path, value)` pairs in the same order (no duplicates
+added, none lost), the same `None`, the same exception; likewise `findfirst` and `in`. -/
+theorem C18_dd_collapse_same_result (findFirst : Bool) (root : XVal) (a b : Str) (k : Nat) :
+    findall findFirst root (a ++ ddRun k ++ b) = findall findFirst root (a ++ star2 ++ b) ∧
+    findfirst root (a ++ ddRun k ++ b) = findfirst root (a ++ star2 ++ b) ∧
+    contains root (a ++ ddRun k ++ b) = contains root (a ++ star2 ++ b) := by
+  unfold findall findfirst contains
+  rw [xpSteps_run]
+  exact ⟨rfl, rfl, rfl⟩
+
+/-- one `**/**` anywhere in the text (also inside a longer run, overlapping occurrences included) -/
+theorem C18_dd_collapse_one (findFirst : Bool) (root : XVal) (a b : Str) :
+    findall findFirst root (a ++ starsPat ++ b) = findall findFirst root (a ++ star2 ++ b) := by
+  unfold findall
+  rw [xpSteps_rewrite]
+
+/-- **C18 (parse ∘ render, `**/**` allowed).**  `C18_parse_render` without the hypothesis on the
+text: for every non-empty grammar expression, what `findall` reads from the rendered string is the
+collapsed token list, and the search is the list-form search for its rendered steps. -/
+theorem C18_parse_render_dd (e : List Tok) (hne : e ≠ []) (hwf : ∀ t ∈ e, WfTok t) :
+    parseExpr (renderExpr e) = some (collapseDD e) ∧
+    xpSteps (renderExpr e) = (collapseDD e).map renderTok ∧
+    ∀ findFirst root, findall findFirst root (renderExpr e) =
+      findallL findFirst root ((collapseDD e).map renderTok) :=
+  ⟨parseExpr_renderExpr_dd e hne hwf, xpSteps_render_dd e hne hwf,
+    fun _ _ => by unfold findall; rw [xpSteps_render_dd e hne hwf]⟩
+
+/-- `<r><a><c><b>1</b><d><b>3</b></d></c><b>2</b></a><b>4</b></r>` -/
+def exDocD : Elem :=
+  .mk (s "r") none [] [
+    .mk (s "a") none [] [
+      .mk (s "c") none [] [.mk (s "b") (some (s "1")) [] [],
+        .mk (s "d") none [] [.mk (s "b") (some (s "3")) [] []]],
+      .mk (s "b") (some (s "2")) [] []],
+    .mk (s "b") (some (s "4")) [] []]
+
+example : normXp (s "a/**/**/**/b") = s "a/**/b" := by decide +kernel
+example : normXp (s "**/**/x") = s "**/x" := by decide +kernel
+example : normXp (s "a/**/**/**/**/**[1]/b") = s "a/**[1]/b" := by decide +kernel
+example : s "a/**/**/**/b" = s "a/" ++ ddRun 2 ++ s "/b" := by decide
+example : s "**/**/a" = [] ++ ddRun 1 ++ s "/a" := by decide
+example : xpSteps (s "a/**/**/**/b") = [s "a", s "**", s "b"] := by decide +kernel
+example : findall false (parseNode exDocD) (s "a/**/**/**/b") =
+    .ok (some [([s "a", s "c", s "b"], .text (some (s "1"))),
+               ([s "a", s "c", s "d", s "b"], .text (some (s "3")))]) := by decide +kernel
+example : findall false (parseNode exDocD) (s "a/**/b") =
+    .ok (some [([s "a", s "c", s "b"], .text (some (s "1"))),
+               ([s "a", s "c", s "d", s "b"], .text (some (s "3")))]) := by decide +kernel
+example : findall false (parseNode exDoc) (s "**/**/a") =
+    .ok (some [([s "b", s "a"], .text (some (s "1")))]) := by decide +kernel
+/-- the list form is *not* normalised: two `**` steps need two levels in between -/
+example : findallL false (parseNode exDocD) [s "a", s "**", s "**", s "b"] =
+    .ok (some [([s "a", s "c", s "d", s "b"], .text (some (s "3")))]) := by decide +kernel
+example : collapseDD [some ⟨s "a", none, none⟩, some stDeep, some stDeep, some ⟨s "**", some (some 1), none⟩,
+      some ⟨s "b", none, none⟩] =
+    [some ⟨s "a", none, none⟩, some ⟨s "**", some (some 1), none⟩, some ⟨s "b", none, none⟩] := by decide
+example : renderExpr [some ⟨s "a", none, none⟩, some stDeep, some stDeep, some ⟨s "**", some (some 1), none⟩,
+      some ⟨s "b", none, none⟩] = s "a/**/**/**[1]/b" := by decide +kernel
+example : ∀ t ∈ [some ⟨s "a", none, none⟩, some stDeep, some stDeep, (some ⟨s "b", none, none⟩ : Tok)],
+    WfTok t := by
+  intro t ht
+  simp at ht
+  rcases ht with rfl | rfl | rfl
+  · exact ⟨Or.inr (Or.inr ⟨by decide, by decide, by decide⟩), trivial⟩
+  · exact ⟨Or.inr (Or.inl rfl), trivial⟩
+  · exact ⟨Or.inr (Or.inr ⟨by decide, by decide, by decide⟩), trivial⟩
 
 /-! ### a step is read whole (fix C18-e)
 
